@@ -15,6 +15,7 @@ from .interp import (
     AnalysisError,
     BoundModel,
     ClassRef,
+    EnumMember,
     ExtRef,
     FuncRef,
     Lambda,
@@ -365,7 +366,7 @@ class Model:
         if op == 'UAdd':
             return self.new(interp, v.term, v.unit, v.dtype, v.taint, v.why)
         if op == 'Invert':
-            t = Rat.fn('not', v.term) if isinstance(v.term, Rat) else None
+            t = T.fn_not(v.term) if isinstance(v.term, Rat) else None
             return self.new(interp, t, v.unit, v.dtype, v.taint, v.why)
         raise AnalysisError(f'unary {op} at {interp.where(node)}')
 
@@ -1234,6 +1235,8 @@ class Model:
                     return None if isinstance(x, Opaque) else isinstance(x, _dt.datetime if p.endswith('datetime') else _dt.date)
                 return None
             if isinstance(t, ClassRef):
+                if isinstance(x, EnumMember):
+                    return x.cls.name == t.ci.name
                 if isinstance(x, SObj):
                     c = [x.cls]
                     seen = set()
